@@ -63,6 +63,8 @@ coap_cache_ignore_options_lkd(coap_context_t *ctx,
   coap_lock_check_locked(ctx);
   if (ctx->cache_ignore_options) {
     coap_free_type(COAP_STRING, ctx->cache_ignore_options);
+    ctx->cache_ignore_options = NULL;
+    ctx->cache_ignore_count = 0;
   }
   if (count) {
     assert(options);
